@@ -235,4 +235,5 @@ def jobs(tier):
     from .. import scenlib as S
     out += mk('C10', 'timeout_during_wal', S.timeout_during_wal(), witnesses=('timeout fired', 'no timeout'))
     out += mk('C10', 'timeout_bystander', S.timeout_bystander(), witnesses=('timeout fired', 'no timeout'))
+    out += mk('C10', 'timeout_bystander/two_handlers', S.timeout_bystander(True), witnesses=('timeout fired', 'no timeout'))
     return out
